@@ -14,6 +14,8 @@ def contracts():
         out.append(solvers.step_contract(ivp.Cfg(layout, "none", "filter", "ts0", q=2, d=2)))
         out.append(solvers.step_contract(ivp.Cfg(layout, "none", "filter", "ts1", q=2, d=2)))
         out.append(solvers.step_contract(ivp.Cfg(layout, "none", "filter", "ts1", q=2, d=1, order=2)))
+    # the TS1 ODE constraint linearises where the requested Taylor-point rule says (abstract rule xi(mean, cholesky))
+    out.append(solvers.step_contract(ivp.Cfg("dense", "none", "filter", "ts1", q=1, d=1, taylor="abstract")))
     return out
 
 
